@@ -76,7 +76,7 @@ def run(ctx, w):
     # closures are not in reachable_fns: look at closure creations
     counters = []
     for fn, fo in line_fns.items():
-        if (fo.get("output") or {}).get("s") != "usize" or len(fo["inputs"]) != 1:
+        if (fo.get("output") or {}).get("s") not in ("usize", "bool") or len(fo["inputs"]) != 1:
             continue
         reach = set(E.reachable_fns([fn]))
         for (pt, cdef, u) in E.closure_creations.get(fn, []):
@@ -85,14 +85,19 @@ def run(ctx, w):
             counters.append(fn)
     trims = [fn for fn, fo in line_fns.items() if len(fo["inputs"]) == 1 and fo["inputs"][0].get("ref") == "mut"
              and any(cs.callee.endswith("::truncate") for cs in E.call_sites(fn)) and any(cs.callee in counters for cs in E.call_sites(fn))]
-    if len(counters) != 1 or len(trims) != 1:
+    if not counters or len(trims) != 1:
         ctx.missing_anchor("Q1", "blank counter / trim routine of Line", "(counters=%s trims=%s)" % (counters, trims))
     else:
-        counter, trim = counters[0], trims[0]
+        trim = trims[0]
+        # only the re-layout machinery is constrained (the dump's cut-off and the text trimming are separate concerns of C09/C11)
+        core = set(E.reachable_fns([rf]))
+        for fn2, fo2 in w.facts.fns.items():
+            if fo2.get("impl_trait", "").endswith("Iterator") and fn2 in w.bodies and (fo2.get("impl_self") or {}).get("s", "").startswith("buffer::"):
+                core |= set(E.reachable_fns([fn2]))
         n = 0
-        for target in (trim, counter):
+        for target in [trim] + counters:
             for cs in E.callers_of(target):
-                if cs.term is None or cs.body == trim:
+                if cs.term is None or cs.body == trim or cs.body not in core or cs.body in counters:
                     continue
                 f = cs.body
                 T = w.terms(f)
@@ -144,9 +149,71 @@ def run(ctx, w):
         after = all(b.point_dominates(p, rl.point) for p in reassign if b.path_exists(p, rl.point)) and any(b.path_exists(p, rl.point) for p in reassign)
         ctx.check(after, "Q3", "relative:after", "the relative position is not computed after the line vector was re-wrapped", loc=w.site_loc(rl))
         # the new column of the cursor comes from the relative position
+    if ok:
+        cursor_remap(ctx, w, S, rf, logical[0], relative[0])
+    from rules import c02
+    c02.relayout_clears_wrap(ctx, w, S, R, "Q4")
+    c02.row_units(ctx, w, S, R, "Q6")
     must = w.mustwrite.must(rf)
     for fld, arg in ((S.buf_cols, "arg2"), (S.buf_rows, "arg3")):
         sites = [(pt, WD.strip_names(t)) for f2, pt, p, t in w.assign_sites({rf}, lambda p: p == ("arg1", fld))]
         okm = ("arg1", fld) in must and all(t == ("load", (arg,)) for _, t in sites)
         ctx.check(okm, "Q3", "adopts:" + fld, "%s does not set `%s` to the requested value on every path" % (rf, fld), loc=w.fn_loc(rf), sample={"field": fld})
     ctx.floor("Q3", 6, "cursor-translation obligations")
+
+
+def cursor_remap(ctx, w, S, rf, lg, rl):
+    """Q5: once the rows are re-wrapped the OLD visual cursor is meaningless: on every path from the map-back
+    to the return both components of the returned cursor are assigned afresh, from the mapped-back position
+    (column: its column; row: its row when that is inside the view, else 0 = the view re-anchored on the cursor)."""
+    b = w.body(rf)
+    T = w.terms(rf)
+    ctx.rule("Q5", "after the map-back with the new width, both components of the returned cursor are re-assigned on every path, from the mapped-back position (row: `rel.1 as usize` under rel.1 >= 0, otherwise 0)")
+    fo = w.facts.fns[rf]
+    cur = [i + 1 for i, a in enumerate(fo["inputs"]) if a["s"] == "(usize, usize)"]
+    if len(cur) != 1:
+        ctx.missing_anchor("Q5", "cursor parameter of " + rf)
+        return
+    cl = cur[0]
+    fresh = {0: [], 1: []}
+    for blk in sorted(b.normal_blocks()):
+        for i, st in enumerate(b.j["blocks"][blk]["stmts"]):
+            if st["k"] != "assign" or st["place"]["local"] != cl:
+                continue
+            pj = st["place"]["proj"]
+            if len(pj) != 1 or pj[0]["k"] != "field":
+                if not pj:
+                    # whole-tuple assignment: counts for both when it comes from the map-back
+                    t = WD.strip_names(T.rvalue(st["rv"], (blk, i)))
+                    if rl.callee in repr(t):
+                        fresh[0].append(((blk, i), t))
+                        fresh[1].append(((blk, i), t))
+                continue
+            t = WD.strip_names(T.rvalue(st["rv"], (blk, i)))
+            comp_load = ("load", ("arg%d" % cl, pj[0]["name"]))
+            if t[0] == "binop" and comp_load in (t[2], t[3]):
+                continue                  # read-modify-write (the height adjustment), not a fresh value
+            if not b.path_exists(rl.point, (blk, i)):
+                continue
+            fresh[pj[0]["i"]].append(((blk, i), t))
+    for comp in (0, 1):
+        pts = [p for p, _ in fresh[comp]]
+        okp = bool(pts) and b.every_path_to_return_hits(rl.point, set(pts))
+        ctx.check(okp, "Q5", "cursor.%d:reassigned" % comp,
+                  "%s: after the rows are re-wrapped there is a path to the return on which cursor.%d keeps its value from before the reflow (fresh assignments at %s)" %
+                  (rf, comp, [w.stmt_loc(rf, p) for p in pts]), loc=w.site_loc(rl), sample={"component": comp, "fresh_assignments": len(pts)})
+        for p, t in fresh[comp]:
+            r = repr(t)
+            gs = [(WD.strip_names(c), v) for c, v in w.guards_of(rf, p[0])]
+            nonneg = [(v if c[1] == "Ge" else (not v)) for c, v in gs if c[0] == "binop" and c[1] in ("Ge", "Lt") and rl.callee in repr(c) and c[3] == ("const", 0)]
+            if comp == 0:
+                okv = t[0] == "field" and t[2] == "0" and t[1][0] == "call" and t[1][1] == rl.callee
+            elif t == ("const", 0):
+                okv = nonneg == [False]
+            else:
+                okv = rl.callee in r and (t[0] == "cast" or "cast" in r) and nonneg == [True]
+            ctx.check(okv, "Q5", "cursor.%d:value:%s" % (comp, shared.site_key(w, rf, p)),
+                      "%s sets cursor.%d := %s under %s; expected the mapped-back %s" %
+                      (rf, comp, w.tstr(rf, t)[:80], [(w.tstr(rf, c)[:50], v) for c, v in gs][-2:], "column" if comp == 0 else "row (as usize) when it is >= 0, and 0 (view re-anchored) when it is negative"),
+                      loc=w.stmt_loc(rf, p), sample={"component": comp, "value": w.tstr(rf, t)[:80]})
+    ctx.floor("Q5", 5, "cursor re-mapping obligations")
